@@ -47,7 +47,7 @@ EXTRA = {
  "C08": " Families whose treatment depends on the sweep direction (a vertex of another part on a shared edge, boxes that merely touch, slivers hanging into the other box) are run under every symmetry.",
  "C13": " Enumerated families and the families tshare / hang / cxsplit are stage-recorded too; Layer M runs on generator inputs. Stage runs also in power-of-two frames 2^+-50..80 (f32 2^+-18..30: whole operands below the machine epsilon), read back exactly and judged by the same integer contracts.",
  "C14": " The strict reading of the last clause demands the NEAREST non-vertical result edge below; the recorded finding N3 (stale or no longer nearest inherited prev_in_result) is accepted only where the TRANSCRIPTION of the pinned algorithm (Layer M, strictcls) produces a stale pointer itself: on the inputs of Layer M a stale pointer that the model does not have is a violation.",
- "C15": " One stage run in five hands the zeros of an operand over as -0.0 (equal points with different bits). Exact float pass (TraceOrderExact.tla): pairs of FLOAT events at one common point whose edges are nearly, not exactly, collinear (sliver tips; f64 and f32, 8 symmetries, power-of-two frames) - Ord::cmp both ways and compare_segments decided by the exact sign of the orientation determinant on the bit patterns (FloatGeometry).",
+ "C15": " Stage runs also in power-of-two frames 2^+-50..80, read back exactly. One stage run in five hands the zeros of an operand over as -0.0 (equal points with different bits). Exact float pass (TraceOrderExact.tla): pairs of FLOAT events at one common point whose edges are nearly, not exactly, collinear (sliver tips; f64 and f32, 8 symmetries, power-of-two frames) - Ord::cmp both ways and compare_segments decided by the exact sign of the orientation determinant on the bit patterns (FloatGeometry).",
  "C09": " Float operands: one session in three carries a far part on A as a base operand of its own, judged at witness points. Family hang (a sliver reaching into, through or under a corner of the other operand's box, its outer edges completely beyond the box) with far parts sized relative to the operands (a far part that moves the box in the other direction too). Crossing-comb scenarios with and without a far part are judged by the closed-form contract of TraceStack.tla; the far-part lemmas are proved in BoolOpsLaws.tla (TLAPS).",
  "C11": " Chained calls on float operands (families whose results contain no computed points) are judged at witness points against the Boolean expression over the base operands. Half of the chain sessions run on operands normalised by the library itself (A u A, B n B), so that fed-back results can coincide ring by ring with operands; the named identities are proved in BoolOpsLaws.tla (TLAPS).",
  "C12": " Between the first and the repeated calls the sessions make calls that PANIC inside the library (the recorded finding N1) and are caught: what an interrupted call leaves behind on its thread must not reach the next call. Equal operands that are not bit-identical (every zero handed over as -0.0) must give equal results (C12_EqualOperands). Pure-f32 / pure-f64 sessions are recorded in two processes (cold, and after a warm-up call of the other type on another thread) and merged, so that equal calls are compared across process histories; equal operands are passed both as two objects and as one aliased object.",
